@@ -30,6 +30,12 @@ class Prop:
         self.design_ref = design_ref
 
 
+def _racy(pid, s, f):
+    """Findings whose reproduction depends on real concurrency or on when a real signal lands: stress sub-checks, failure classes the
+    harness marks 'concurrent...', and C19 (signal storms are delivered by a thread on the wall clock; the oracles themselves are exact, so a
+    failing replay is a violation whenever it happens) must reproduce at least once in five replays; everything else three times in three."""
+    return s.kind == 'stress' or f.get('class', '').startswith('concurrent') or pid == 'C19'
+
 def load_known():
     path = os.path.join(VERIF, 'known_findings.jsonl')
     out = []
@@ -356,7 +362,7 @@ def run_property(prop, tier, seed, replay=None):
             continue
         nfail, nrun = 0, 0
         last = ''
-        for _ in range(5 if (s.kind == 'stress' or f.get('class', '').startswith('concurrent')) else 3):
+        for _ in range(5 if _racy(pid, s, f) else 3):
             rh = s.harness
             if s.kind == 'fuzz':
                 rh = prop.corpus_harness
@@ -372,11 +378,11 @@ def run_property(prop, tier, seed, replay=None):
             if fails:
                 nfail += 1
                 last = out
-                if nfail >= (1 if (s.kind == 'stress' or f.get('class', '').startswith('concurrent')) else 3):
+                if nfail >= (1 if _racy(pid, s, f) else 3):
                     break
         # deterministic engines must fail 3/3; findings that depend on real concurrency (stress sub-checks, and failure classes
         # the harness marks as 'concurrent…') must reproduce at least once
-        racy = s.kind == 'stress' or f.get('class', '').startswith('concurrent')
+        racy = _racy(pid, s, f)
         need = 1 if racy else 3
         if nfail >= need:
             v2 = verdict
